@@ -21,7 +21,7 @@ def confirm(wt, which):
     patch = os.path.join(d, "patch.diff")
     demo = None
     for n in sorted(os.listdir(d)):
-        if n.startswith("demo") and not n.endswith(".log") and not n.endswith(".txt"):
+        if n.startswith("demo") and (n.endswith(".sh") or n.endswith(".py")):
             demo = os.path.join(d, n)
             break
     res = {"worktree": wt, "mutation": which, "demo": demo}
